@@ -96,7 +96,7 @@ impl Property for P {
     }
     fn cases(tier: Tier) -> u64 {
         match tier {
-            Tier::Quick => 300_000,
+            Tier::Quick => 1_200_000,
             Tier::Thorough => 16_000_000,
         }
     }
@@ -110,4 +110,11 @@ impl Property for P {
             ("multi_paragraph", 0.2),
         ]
     }
+}
+
+pub fn decode(data: &[u8]) -> Case {
+    let mut r = crate::fuzzdec::Reader::new(data);
+    let mode = r.u8();
+    let width = crate::fuzzdec::width(&mut r);
+    Case { text: crate::fuzzdec::text(mode, r.rest()), width }
 }
